@@ -100,19 +100,31 @@ func (e *ExchangeJSightSchema) buildContent() error {
 }
 
 func (e *ExchangeJSightSchema) CastToObject() *ExchangeJSightSchema {
-	switch e.ASTNode.TokenType {
-	case "object":
-		return e
-	case "reference":
-		if ut, ok := e.catalogUserTypes.Get(e.ASTNode.Value); ok {
-			if ee, ok := ut.Schema.(*ExchangeJSightSchema); ok {
-				return ee.CastToObject()
-			} else {
+	// a chain of references may lead back to a type already seen ("TYPE @a  @a"): not an object
+	seen := map[*ExchangeJSightSchema]struct{}{}
+	for {
+		if _, ok := seen[e]; ok {
+			return nil
+		}
+		seen[e] = struct{}{}
+
+		switch e.ASTNode.TokenType {
+		case "object":
+			return e
+		case "reference":
+			ut, ok := e.catalogUserTypes.Get(e.ASTNode.Value)
+			if !ok {
 				return nil
 			}
+			ee, ok := ut.Schema.(*ExchangeJSightSchema)
+			if !ok {
+				return nil
+			}
+			e = ee
+		default:
+			return nil
 		}
 	}
-	return nil
 }
 
 func (e *ExchangeJSightSchema) processAllOf(uut *StringSet) error {
